@@ -109,6 +109,10 @@ func encPool(code []byte, consts []interface{}, full bool) (string, [][]byte) {
 // constants as vm.Compile, (2) the verified verifier must accept the bytes the Go compiler
 // emitted, (3) the model machine must compute what the Go machine computes.
 func vmCases(eng *engine, vars []envVar, vals map[string]*val.Val, src string, tag string) []Case {
+	if guardBegin("vmrun "+src) {
+		return []Case{crashCase("vmrun " + src)}
+	}
+	defer guardEnd()
 	parsed, perr := parseSrc(src)
 	if perr != nil {
 		return nil
